@@ -811,21 +811,26 @@ fn main() {
         explore::<TrZ>(&mut ctx, &mut tot, caps, 1, 3600);
         explore::<Tr<5>>(&mut ctx, &mut tot, caps, 1, 3600);
         explore::<u32>(&mut ctx, &mut tot, caps, 1, 3600);
+        explore::<TrB>(&mut ctx, &mut tot, caps, 1, 3600);
     } else {
         let budget: u64 = ctx.extra.get("budget").and_then(|s| s.parse().ok()).unwrap_or(if ctx.thorough() { 2400 } else { 50 });
         if let Some(c) = ctx.extra.get("caps").map(|s| parse_caps(s)) {
             explore::<Tr<0>>(&mut ctx, &mut tot, c, threads, budget);
             explore::<TrZ>(&mut ctx, &mut tot, c, threads, budget);
+            explore::<TrB>(&mut ctx, &mut tot, c, threads, budget);
         } else if ctx.thorough() {
             explore::<Tr<0>>(&mut ctx, &mut tot, Caps { lmax: 5, containers: 3, elements: 6 }, threads, budget);
             explore::<TrZ>(&mut ctx, &mut tot, Caps { lmax: 4, containers: 3, elements: 5 }, threads, budget);
             explore::<Tr<5>>(&mut ctx, &mut tot, Caps { lmax: 3, containers: 3, elements: 4 }, threads, budget);
             explore::<u32>(&mut ctx, &mut tot, Caps { lmax: 3, containers: 3, elements: 4 }, threads, budget);
+            explore::<TrB>(&mut ctx, &mut tot, Caps { lmax: 3, containers: 3, elements: 4 }, threads, budget);
         } else {
             explore::<Tr<0>>(&mut ctx, &mut tot, Caps { lmax: 3, containers: 3, elements: 3 }, threads, budget);
             explore::<TrZ>(&mut ctx, &mut tot, Caps { lmax: 3, containers: 2, elements: 4 }, threads, budget);
             explore::<Tr<5>>(&mut ctx, &mut tot, Caps { lmax: 2, containers: 2, elements: 3 }, threads, budget);
             explore::<Tr<0>>(&mut ctx, &mut tot, Caps { lmax: 5, containers: 2, elements: 5 }, threads, budget);
+            // heap payload: under the AddressSanitizer substrate a double drop is a double free
+            explore::<TrB>(&mut ctx, &mut tot, Caps { lmax: 3, containers: 2, elements: 4 }, threads, budget);
         }
     }
     let ops: serde_json::Map<String, serde_json::Value> = tot.op_counts.iter().map(|(k, v)| (k.to_string(), json!(v))).collect();
